@@ -3,6 +3,9 @@ package main
 import (
 	"archive/tar"
 	"bytes"
+	"compress/bzip2"
+	"compress/gzip"
+	"os/exec"
 	"context"
 	"fmt"
 	"io"
@@ -145,6 +148,77 @@ func applyMut(b []byte, mut string) []byte {
 		var n int
 		fmt.Sscan(f[1], &n)
 		return append(append([]byte(nil), b...), make([]byte, n*512)...)
+	case "gz", "bz2", "xz":
+		// compression leaves the fileset unchanged; f[1] = number of concatenated members / streams (all three
+		// formats allow concatenation), cut at tar block boundaries
+		n := 1
+		if len(f) > 1 {
+			fmt.Sscan(f[1], &n)
+		}
+		blocks := len(b) / 512
+		if n < 1 || blocks == 0 {
+			n = 1
+		}
+		per := (blocks + n - 1) / n
+		if per == 0 {
+			per = 1
+		}
+		var out []byte
+		for off := 0; off < len(b) || off == 0; off += per * 512 {
+			end := off + per*512
+			if end > len(b) || n == 1 {
+				end = len(b)
+			}
+			part, err := compressWith(f[0], b[off:end])
+			if err != nil {
+				return b
+			}
+			out = append(out, part...)
+			if end == len(b) {
+				break
+			}
+		}
+		return out
+	}
+	return b
+}
+
+func compressWith(kind string, b []byte) ([]byte, error) {
+	switch kind {
+	case "gz":
+		var buf bytes.Buffer
+		w := gzip.NewWriter(&buf)
+		w.Write(b)
+		w.Close()
+		return buf.Bytes(), nil
+	case "bz2":
+		cmd := exec.Command("bzip2", "-c")
+		cmd.Stdin = bytes.NewReader(b)
+		return cmd.Output()
+	case "xz":
+		cmd := exec.Command("xz", "-c", "-0")
+		cmd.Stdin = bytes.NewReader(b)
+		return cmd.Output()
+	}
+	return b, nil
+}
+
+// plainOf: independent decompression (Go's gzip / bzip2 readers, the xz tool) of what the harness compressed
+func plainOf(b []byte) []byte {
+	switch {
+	case len(b) > 2 && b[0] == 0x1f && b[1] == 0x8b:
+		if zr, err := gzip.NewReader(bytes.NewReader(b)); err == nil {
+			out, _ := io.ReadAll(zr)
+			return out
+		}
+	case len(b) > 3 && string(b[:3]) == "BZh":
+		out, _ := io.ReadAll(bzip2.NewReader(bytes.NewReader(b)))
+		return out
+	case len(b) > 6 && string(b[:6]) == "\xfd7zXZ\x00":
+		cmd := exec.Command("xz", "-dc")
+		cmd.Stdin = bytes.NewReader(b)
+		out, _ := cmd.Output()
+		return out
 	}
 	return b
 }
@@ -229,7 +303,7 @@ func unpackExec(c *Ctx, op string) string {
 		}
 	}
 	stream = applyMut(stream, f[4])
-	toks, fin := decodeForModel(stream)
+	toks, fin := decodeForModel(plainOf(stream))
 	r := runUnpackTarNil(filt, stream)
 	var res string
 	switch {
@@ -377,7 +451,13 @@ func unpackEngine(c *Ctx) {
 		for vi, o := range variants {
 			hdrs, eff := c.filesetToHdrs(fsx, o)
 			format := []string{"-", "pax", "gnu", "-", "pax"}[vi]
-			op := fmt.Sprintf("unpack tar %s %s none %s", lossless, format, hdrsTok(hdrs))
+			// compression (none / gzip / bzip2 / xz, one or several concatenated members) must not matter either
+			comp := "none"
+			if c.Chance(1, 2) {
+				comp = fmt.Sprintf("%s:%d", []string{"gz", "gz", "bz2", "xz"}[c.Intn(4)], 1+c.Intn(4))
+			}
+			c.H("comp:" + strings.Split(comp, ":")[0])
+			op := fmt.Sprintf("unpack tar %s %s %s %s", lossless, format, comp, hdrsTok(hdrs))
 			r := unpackExec(c, op)
 			parts := strings.SplitN(r, "\x00", 2)
 			c.EmitR(op, parts[0], parts[1])
@@ -415,6 +495,42 @@ func unpackEngine(c *Ctx) {
 				c.PropFail("valid-archive-refused", "a well-formed archive of a fileset was not accepted: "+parts[1], op)
 			}
 			c.H("variant:" + fmt.Sprint(vi))
+		}
+		// (1b) C04 through archives: two archives whose filesets differ in one attribute of one entry — in every
+		// entry order — must scan to different ids (a directory entry after its children takes the UpdateRecord path)
+		for _, o := range []hdrOpts{{}, {dirsAfterKids: true}} {
+			vi := 1 + c.Intn(len(fsx))
+			if vi >= len(fsx) {
+				vi = 0
+			}
+			if fsx[vi].Kind != 'd' && fsx[vi].Kind != 'f' {
+				continue
+			}
+			fs2 := fsx.clone()
+			switch c.Intn(3) {
+			case 0:
+				fs2[vi].Perms ^= 0o010
+			case 1:
+				fs2[vi].Gid++
+			case 2:
+				fs2[vi].Sec += 7
+			}
+			ids := [2]string{}
+			var ops [2]string
+			for j, f := range []Fileset{fsx, fs2} {
+				hdrs, _ := c.filesetToHdrs(f, o)
+				ops[j] = fmt.Sprintf("unpack tar %s pax none %s", lossless, hdrsTok(hdrs))
+				r := unpackExec(c, ops[j])
+				parts := strings.SplitN(r, "\x00", 2)
+				c.EmitR(ops[j], parts[0], parts[1])
+				if strings.HasPrefix(parts[1], "ok ") {
+					ids[j] = strings.Fields(parts[1])[1]
+				}
+			}
+			c.H("archive-edit-pair")
+			if ids[0] != "" && ids[0] == ids[1] {
+				c.PropFail("collision", fmt.Sprintf("two archives whose filesets differ in an attribute of %q scan to the same id", fsx[vi].Name), ops[1])
+			}
 		}
 		// (2) filters: post id == reference of the filtered fileset; reject iff offending entry (C12)
 		for fi := 0; fi < 3; fi++ {
